@@ -29,6 +29,7 @@ type c19Case struct {
 	Kind   string   `json:"kind"`
 	Args   []string `json:"args"` // command line after the binary (file names are symbolic: $KEYS, $OTHER, $DIR)
 	Stdin  string   `json:"stdin,omitempty"`
+	Env    []string `json:"env,omitempty"`
 	Expect string   `json:"expect"`         // exit0 | nonzero | verify-as-harness
 	Hash   *big.Int `json:"hash,omitempty"` // verify: the supplied hash
 	Params *mParams `json:"params,omitempty"`
@@ -348,7 +349,7 @@ func runC19(c c19Case) Result {
 		}
 		return ok(class, true)
 	}
-	r := runCLI(tmo, []byte(c.Stdin), nil, e.subst(c.Args)...)
+	r := runCLI(tmo, []byte(c.Stdin), c.Env, e.subst(c.Args)...)
 	if r.TimedOut {
 		return bad(class, "cli:hang:"+c.Kind, "%v did not exit", c.Args)
 	}
@@ -469,6 +470,17 @@ func c19FailureCauses(e *c19Env) []c19Case {
 		c.Kind, c.Note = "bad-mode-flag:verify", mf.note
 		c.Args = append([]string{"verify"}, append(append([]string{}, mf.args...), "--keys-file", "$KEYS", "--input-hash", hash)...)
 		c.Stdin = proofJSON
+		out = append(out, c)
+	}
+	// the mode taken from the MTB_MODE environment variable (no --mode flag): garbage must fail although all else is valid
+	for _, ev := range []string{"MTB_MODE=garbage", "MTB_MODE=" + strings.ToUpper(e.mode)} {
+		c := base
+		c.Kind, c.Note, c.Env = "bad-mode-flag:prove", "env:"+ev, []string{ev}
+		c.Args, c.Stdin = []string{"prove", "--keys-file", "$KEYS"}, m.writeDoc(styleHexLower)
+		out = append(out, c)
+		c = base
+		c.Kind, c.Note, c.Env = "bad-mode-flag:verify", "env:"+ev, []string{ev}
+		c.Args, c.Stdin = []string{"verify", "--keys-file", "$KEYS", "--input-hash", hash}, proofJSON
 		out = append(out, c)
 	}
 	for _, which := range []string{"$DIR/missing.ps", "$EMPTY", "$TRUNCATED", "$TRUNCATEDMID", "$DIR"} {
